@@ -5,8 +5,6 @@ package main
 // process - the registry is process-global), and records free-running goroutines.
 
 import (
-	"time"
-	"sync/atomic"
 	"bufio"
 	"bytes"
 	"encoding/json"
